@@ -611,7 +611,8 @@ fn merge_chunk(r: &mut Report, j: &J) {
         let lo = j["lo"].as_u64().unwrap_or(0);
         for x in a {
             // keep the first chunk's and a few later samples
-            if s.samples.len() < 3 || (lo > 0 && s.samples.len() < 6) {
+            // small spaces (one heavy case per index) keep every case's sample
+            if s.samples.len() < 3 || (lo > 0 && s.samples.len() < 6) || (s.size <= 40 && s.samples.len() < 40) {
                 s.samples.push(x.clone());
             }
         }
